@@ -9,7 +9,8 @@ import GomlVerif.Driver.C09
 dumps of the same compilation, plus the fragment predicate of `pipeline_preserves`.
 
 Input line: `id<TAB>(prog core)<TAB>(genv (enums …) (structs …))<TAB>(prog mono)<TAB>(prog lift)<TAB>(prog anf)`.
-Output: `id<TAB>EQ|EQT|DIFF|UNSUPPORTED<TAB>first differing stage + detail<TAB>IN|OUT<TAB>reasons<TAB>stats`.
+Output: `id<TAB>EQ|EQT|DIFF|UNSUPPORTED<TAB>first differing stage + detail<TAB>IN|IN-FROM-MONO|OUT<TAB>reasons<TAB>stats`
+(`IN` = `InPipeFragment`, `IN-FROM-MONO` = only `InLiftAnfFragment`, the fragment of `pipeline_preserves_partial`).
 
 The one number read off the real output is the state of the pipeline-wide `Gensym` when `mono`
 returns (an input of the middle end that the Core dump does not carry): the `env<N>` of the first
@@ -77,7 +78,8 @@ def runLine (l : String) : String :=
           let inF := inPipeFragment i
           let rs := if inF then [] else reasons i
           let stats := s!"gensym={i.gensym} core_fns={C.fns.length} mono_fns={s.mono.fns.length} lift_fns={s.lift.fns.length} instances={s.pairs.length}"
-          s!"{id}\t{verdict}\t{if inF then "IN" else "OUT"}\t{"; ".intercalate rs}\t{stats}"
+          let tag := if inF then "IN" else if inLiftAnfFragment i then "IN-FROM-MONO" else "OUT"
+          s!"{id}\t{verdict}\t{tag}\t{"; ".intercalate rs}\t{stats}"
       | _, _, _, _, _ => s!"{id}\tdecode-error\t\t\t\t"
     | _, _, _, _, _ => s!"{id}\tparse-error\t\t\t\t"
   | _ => "?\tbad-line\t\t\t\t"
